@@ -293,6 +293,7 @@ static void build_mutations(const TypeCtx& c, const Val& v0, const Enc& e, uint6
   // structural single defects
   int cand = count_struct_candidates(c.sch, v0);
   for (int t = 0; t < cand && t < 6; t++) { Val mv = v0; ValMutator vm(r, cand <= 6 ? t : (int)r.below((uint64_t)cand)); vm.walk(c.sch, mv); if (!vm.done) continue; Enc e2; RefEncode(c.sch, mv, e2); Mut m; m.bytes = e2.out; m.kind = MutKind::Structural; m.desc = vm.desc; m.category_comparable = true; m.defect_off = SIZE_MAX - 1; muts.push_back(std::move(m)); }
+  table_wrap_mutations(e, muts);
   noise_mutations(e.out, r, thorough ? 24 : 10, muts);
   for (int i = 0; i < (thorough ? 16 : 6); i++) muts.push_back(random_string(r));
 }
@@ -310,45 +311,49 @@ static void c04_c02_case(const TypeCtx& c, uint64_t ci, bool is_c02) {
   auto ref_resolver = [&](int64_t ref, int64_t* val) -> int { if (ref < 0) { *val = -1; return 0; } if ((size_t)ref >= pushed.size()) return (int)nop::ErrorStatus::InvalidHandleReference; *val = pushed[(size_t)ref]; return 0; };
   std::vector<Mut> muts; build_mutations(c, v0, e, ci, args().thorough(), muts);
   { Mut m; m.bytes = e.out; m.kind = MutKind::Noise; m.desc = "valid"; muts.push_back(m); }
+  for (int which = 0; which < 2; which++) {
+  if (which == 1 && c.alt < 0) break;
+  const TypeCtx& dc = which ? g_types[(size_t)c.alt] : c;
+  if (which) rep().count(is_c02 ? "c02_inputs_decoded_by_other_table_version" : "c04_inputs_decoded_by_other_table_version");
   // a known-valid encoding used for the re-read post-condition
-  Val vv = gen_value(c, ci, 555); Obj ov(c.t); ov.set(vv); Val vv0 = canoned(c.sch, ov.val()); Enc ev; ev.refs = &refs; RefEncode(c.sch, ov.val(), ev);
+  Val vv = gen_value(dc, ci, 555); Obj ov(dc.t); ov.set(vv); Val vv0 = canoned(dc.sch, ov.val()); Enc ev; ev.refs = &refs; RefEncode(dc.sch, ov.val(), ev);
   // expected value of vv0 when read through the resolver
-  Val vv_expect; { Val t; RefDecode(c.sch, ev.out.data(), ev.out.size(), &t, ref_resolver); vv_expect = canoned(c.sch, t); }
+  Val vv_expect; { Val t; RefDecode(dc.sch, ev.out.data(), ev.out.size(), &t, ref_resolver); vv_expect = canoned(dc.sch, t); }
   size_t mi = 0;
   for (auto& m : muts) {
     mi++;
-    if (!args().only_stage.empty() && args().only_stage != fmt("%s#%zu", is_c02 ? "hostile" : "decode", mi)) continue;
-    std::string stage = fmt("%s#%zu", is_c02 ? "hostile" : "decode", mi);
-    Val rv; DecResult rr = RefDecode(c.sch, m.bytes.data(), m.bytes.size(), &rv, ref_resolver);
-    bool ref_ok = rr.cat == Cat::OK; if (ref_ok) canon(c.sch, rv);
-    rep().note(hash_combine(hash_str(c.t->name), hash_bytes(m.bytes.data(), m.bytes.size())), m.bytes.size() > 0);
+    if (!args().only_stage.empty() && args().only_stage != fmt("%s%s#%zu", is_c02 ? "hostile" : "decode", which ? "-alt" : "", mi)) continue;
+    std::string stage = fmt("%s%s#%zu", is_c02 ? "hostile" : "decode", which ? "-alt" : "", mi);
+    Val rv; DecResult rr = RefDecode(dc.sch, m.bytes.data(), m.bytes.size(), &rv, ref_resolver);
+    bool ref_ok = rr.cat == Cat::OK; if (ref_ok) canon(dc.sch, rv);
+    rep().note(hash_combine(hash_str(dc.t->name), hash_bytes(m.bytes.data(), m.bytes.size())), m.bytes.size() > 0);
     rep().count(ref_ok ? fmt("%s_inputs_reference_accepts", is_c02 ? "c02" : "c04") : fmt("%s_inputs_reference_rejects", is_c02 ? "c02" : "c04"));
     if (!ref_ok) rep().count(fmt("refcat_%s", catname(rr.cat)));
     rep().count(fmt("mutkind_%d", (int)m.kind));
     int nreaders = is_c02 ? 8 : 4;
     for (int k = 0; k < nreaders; k++) {
       int rk = kHostileReaders[k];
-      if (!r_ok(rk, c.t->flags)) continue;
+      if (!r_ok(rk, dc.t->flags)) continue;
       if (k >= 5 && (mi % 8) != (size_t)(k - 5) && !args().replay()) continue;   // stream/fd-backed bounded readers: an eighth of the inputs each
       size_t bound = r_is_bounded(rk) ? m.bytes.size() : SIZE_MAX;
       set_current("%s", case_desc(c.t->name, (int64_t)ci, stage, J().s("reader", rname(rk)).s("mutation", m.desc).s("bytes", hex(m.bytes, 200)).str()).c_str());
-      uint64_t cap = is_c02 ? 65536 + 1024 * (uint64_t)m.bytes.size() + 64 * c.t->sizeof_t : 0;
-      Obj dst(c.t);
-      DecodeOutcome d = decode_with(c, rk, m.bytes, bound, dst, &rs, cap);
+      uint64_t cap = is_c02 ? 65536 + 1024 * (uint64_t)m.bytes.size() + 64 * dc.t->sizeof_t : 0;
+      Obj dst(dc.t);
+      DecodeOutcome d = decode_with(dc, rk, m.bytes, bound, dst, &rs, cap);
       std::string det = J().s("reader", rname(rk)).s("mutation", m.desc).s("bytes", hex(m.bytes, 200)).str();
       Viol vv2{c, (int64_t)ci, stage.c_str()};
       if (is_c02) {
         rep().count("c02_monitored_decodes"); rep().maxc("max_peak_alloc_bytes", meter().peak); rep().maxc("max_single_alloc_bytes", meter().largest);
         if (m.bytes.size()) rep().maxc("max_peak_alloc_per_input_byte_x100", meter().peak * 100 / m.bytes.size());
-        if (d.bad_alloc || meter().tripped) { vv2(fmt("C02:alloc-cap:%s:%s", rname(rk), tkey(c).c_str()), fmt("allocation above the cap (%" PRIu64 " bytes) while decoding %zu input bytes: largest request %" PRIu64 ", peak %" PRIu64, cap, m.bytes.size(), std::max(meter().largest, meter().trip_request), meter().peak), det); continue; }
-        if (!d.ok && !defined_error(d.err)) vv2(fmt("C02:undefined-status:%s", tkey(c).c_str()), fmt("Read returned an undefined error status %d", (int)d.err), det);
-        if (d.consumed > m.bytes.size()) vv2(fmt("C02:overconsumed:%s:%s", rname(rk), tkey(c).c_str()), fmt("reader position %zu beyond the %zu input bytes", d.consumed, m.bytes.size()), det);
+        if (d.bad_alloc || meter().tripped) { vv2(fmt("C02:alloc-cap:%s:%s", rname(rk), tkey(dc).c_str()), fmt("allocation above the cap (%" PRIu64 " bytes) while decoding %zu input bytes: largest request %" PRIu64 ", peak %" PRIu64, cap, m.bytes.size(), std::max(meter().largest, meter().trip_request), meter().peak), det); continue; }
+        if (!d.ok && !defined_error(d.err)) vv2(fmt("C02:undefined-status:%s", tkey(dc).c_str()), fmt("Read returned an undefined error status %d", (int)d.err), det);
+        if (d.consumed > m.bytes.size()) vv2(fmt("C02:overconsumed:%s:%s", rname(rk), tkey(dc).c_str()), fmt("reader position %zu beyond the %zu input bytes", d.consumed, m.bytes.size()), det);
         // post-conditions: inspect, re-read a valid encoding into the same object, destroy
-        if (!d.ok && !(c.t->flags & F_AMBIGUOUS)) {
+        if (!d.ok && !(dc.t->flags & F_AMBIGUOUS)) {
           (void)dst.val();
-          DecodeOutcome d2 = decode_with(c, (c.t->flags & F_HANDLE) ? R_LOG : R_PEDANTIC, ev.out, SIZE_MAX, dst, &rs, 0);
-          if (!d2.ok) vv2(fmt("C02:reread-failed:%s", tkey(c).c_str()), fmt("a valid encoding no longer reads into the object left by a failed read ('%s')", errname(d2.err)), det);
-          else if (!(c.t->flags & F_AMBIGUOUS) && canoned(c.sch, dst.val()) != vv_expect) vv2(fmt("C02:reread-differs:%s", tkey(c).c_str()), "object left by a failed read decodes a valid encoding to a different value than a fresh object", det);
+          DecodeOutcome d2 = decode_with(dc, (dc.t->flags & F_HANDLE) ? R_LOG : R_PEDANTIC, ev.out, SIZE_MAX, dst, &rs, 0);
+          if (!d2.ok) vv2(fmt("C02:reread-failed:%s", tkey(dc).c_str()), fmt("a valid encoding no longer reads into the object left by a failed read ('%s')", errname(d2.err)), det);
+          else if (!(dc.t->flags & F_AMBIGUOUS) && canoned(dc.sch, dst.val()) != vv_expect) vv2(fmt("C02:reread-differs:%s", tkey(dc).c_str()), "object left by a failed read decodes a valid encoding to a different value than a fresh object", det);
           rep().count("c02_failed_reads_followed_by_reread");
         }
         continue;
@@ -357,25 +362,26 @@ static void c04_c02_case(const TypeCtx& c, uint64_t ci, bool is_c02) {
       rep().count("c04_differential_decodes");
       if (d.ok != ref_ok) {
         std::string rolek = "other"; for (auto& f : e.fields) if (m.defect_off >= f.off && m.defect_off < f.off + f.len) rolek = rolename(f.role);
-        vv2(fmt("C04:%s:%s:%s:%s", d.ok ? "accepts-invalid" : "rejects-valid", d.ok ? catname(rr.cat) : errname(d.err), rolek.c_str(), tkey(c).c_str()),
+        vv2(fmt("C04:%s:%s:%s:%s", d.ok ? "accepts-invalid" : "rejects-valid", d.ok ? catname(rr.cat) : errname(d.err), rolek.c_str(), tkey(dc).c_str()),
             d.ok ? fmt("%s accepted input the format rejects (%s at offset %zu)", rname(rk), catname(rr.cat), rr.err_off) : fmt("%s rejected ('%s') input that is a well-formed encoding", rname(rk), errname(d.err)), det);
         continue;
       }
       if (d.ok) {
-        if (d.consumed != rr.consumed) vv2(fmt("C04:consumed-differs:%s:%s", rname(rk), tkey(c).c_str()), fmt("%s consumed %zu bytes, the encoding is %zu bytes long", rname(rk), d.consumed, rr.consumed), det);
-        else if (!rr.dup_keys && !(c.t->flags & F_AMBIGUOUS) && canoned(c.sch, dst.val()) != rv) vv2(fmt("C04:value-differs:%s", tkey(c).c_str()), fmt("decoded %s, the bytes denote %s", vjson(canoned(c.sch, dst.val())).c_str(), vjson(rv).c_str()), det);
+        if (d.consumed != rr.consumed) vv2(fmt("C04:consumed-differs:%s:%s", rname(rk), tkey(dc).c_str()), fmt("%s consumed %zu bytes, the encoding is %zu bytes long", rname(rk), d.consumed, rr.consumed), det);
+        else if (!rr.dup_keys && !(dc.t->flags & F_AMBIGUOUS) && canoned(dc.sch, dst.val()) != rv) vv2(fmt("C04:value-differs:%s", tkey(dc).c_str()), fmt("decoded %s, the bytes denote %s", vjson(canoned(dc.sch, dst.val())).c_str(), vjson(rv).c_str()), det);
         rep().count("c04_accepted_and_value_compared");
       } else {
         bool single = m.category_comparable && (m.kind == MutKind::Structural || m.kind == MutKind::Cut || rr.err_off == m.defect_off);
         if (m.kind == MutKind::Cut && rr.cat != Cat::Truncated) single = false;
         if (single && rr.cat != Cat::HandleError) {
           rep().count("c04_single_defect_categories_compared"); rep().count(fmt("c04_cat_%s", catname(rr.cat)));
-          if (fromnop(d.err) != rr.cat) vv2(fmt("C04:category:%s-for-%s:%s", errname(d.err), catname(rr.cat), tkey(c).c_str()), fmt("%s returned '%s' for a single defect (%s) whose category is %s", rname(rk), errname(d.err), m.desc.c_str(), catname(rr.cat)), det);
+          if (fromnop(d.err) != rr.cat) vv2(fmt("C04:category:%s-for-%s:%s", errname(d.err), catname(rr.cat), tkey(dc).c_str()), fmt("%s returned '%s' for a single defect (%s) whose category is %s", rname(rk), errname(d.err), m.desc.c_str(), catname(rr.cat)), det);
         }
       }
     }
-    if (rep().want_sample(fmt("%s-%d", c.t->name, (int)m.kind), 1) && rep().samples.size() < 16 && ci == 0)
-      rep().sample(fmt("%s-%d", c.t->name, (int)m.kind), J().s("type", c.t->name).s("mutation", m.desc).s("bytes", hex(m.bytes, 40)).s("reference", ref_ok ? "accept" : catname(rr.cat)).str(), 1);
+    if (rep().want_sample(fmt("%s-%d", dc.t->name, (int)m.kind), 1) && rep().samples.size() < 16 && ci == 0)
+      rep().sample(fmt("%s-%d", dc.t->name, (int)m.kind), J().s("type", dc.t->name).s("mutation", m.desc).s("bytes", hex(m.bytes, 40)).s("reference", ref_ok ? "accept" : catname(rr.cat)).str(), 1);
+  }
   }
   clear_current();
 }
@@ -607,6 +613,7 @@ static void c11_case(const TypeCtx& c, uint64_t ci) {
 // ================================================================= main
 int vf::engine_main() {
   const Args& a = args();
+  set_watchdog(args().thorough() ? 120 : 40);
   auto& reg = registry();
   std::sort(reg.begin(), reg.end(), [](const TypeOps& x, const TypeOps& y) { return strcmp(x.name, y.name) < 0; });
   for (size_t i = 0; i < reg.size(); i++) g_types.push_back(TypeCtx{&reg[i], reg[i].schema(), i});
